@@ -4,7 +4,7 @@ import json, os
 
 ROOT = os.path.dirname(os.path.dirname(os.path.abspath(__file__)))
 
-NOTE = ("Sampled executions of the tree's contracts in the soroban-sdk 22 native test host (not the Wasm VM); the host's "
+NOTE = ("Where stated, the history recorded under the pinned version (legacy/state.json) is continued by the current code after upgrade and migrate. Sampled executions of the tree's contracts in the soroban-sdk 22 native test host (not the Wasm VM); the host's "
         "transaction atomicity, auth-tree matching and TTL semantics, Ed25519 and Keccak-256 are trusted; independent oracles "
         "are self-tested against fixed vectors before every run. Held on the executions listed in the evidence file, not proved.")
 
@@ -118,7 +118,7 @@ manifest = {
     "checks": checks,
     "notes": ("All 18 properties are decided by runtime monitors written for this task (no Miri/ASan: the nightly toolchain cannot build the Soroban dependency tree offline; valgrind memcheck is used for C10). "
               "Two genuine defects were repaired in /repo with 'fix:' commits (ff606be C12, 03dc987 C16); two are recorded in KNOWN_FINDINGS.txt (C04, C11) because their repair would break the unedited suite. "
-              "Sensitivity is documented in DESIGN.md §10: 140 hand mutants, 162 independently written and confirmed seeded changes under seeded/, 13 property-preserving changes that must stay silent."),
+              "Sensitivity is documented in DESIGN.md §10: 140 hand mutants, 198 independently written and confirmed seeded changes under seeded/, 12 property-preserving changes that must stay silent."),
     "not_applicable": [],
 }
 json.dump(manifest, open(os.path.join(ROOT, "MANIFEST.json"), "w"), indent=1)
